@@ -129,3 +129,12 @@ def classify(case, mo):
     else:
         tags.append("single-chunk")
     return tags
+
+
+def warm_up():
+    for c in (mk("plain", 2, data=[1, 2, 3], dtype="int32"), mk("plain", 2, data=[1, 2, 3], dtype="int64"),
+              mk("indexed", 2, indices=[0, 1, 3], values=[97, 98, 99])):
+        try:
+            impl(c)
+        except Exception:   # noqa
+            pass
